@@ -30,6 +30,9 @@ def _configs(m):
         ("mistune.html", m.html),
         ("rst", m.create_markdown(renderer=RSTRenderer())),
         ("markdown", m.create_markdown(renderer=MarkdownRenderer())),
+        ("html-default|parse", m.create_markdown()),
+        ("html-default|read", m.create_markdown()),
+        ("ast-plugins|parse", m.create_markdown(renderer=None, plugins=["table", "footnotes", "def_list", "task_lists"])),
     ]
 
 
@@ -101,21 +104,45 @@ def _vary(r, t, how):
     return "".join(out)
 
 
+import os
+import tempfile
+
+_TMP = None
+
+
+def _via(md, how, t):
+    """the three public entry points: md(text), md.parse(text)[0], md.read(path)[0]"""
+    global _TMP
+    if how == "call":
+        return md(t)
+    if how == "parse":
+        return md.parse(t)[0]
+    if _TMP is None:
+        _TMP = tempfile.mkdtemp(prefix="c16_")
+    path = os.path.join(_TMP, "doc.md")
+    with open(path, "wb") as f:
+        f.write(t.encode("utf-8", "surrogatepass"))
+    return md.read(path)[0]
+
+
 def _check_one(cfgs, t, r, fails, name_filter=None):
     for name, md in cfgs:
+        entry = "call"
+        if "|" in name:
+            name0, entry = name.split("|")
         try:
-            base = md(t)
+            base = _via(md, "call", t + ("" if t.endswith("\n") else "\n"))
         except Exception as e:  # C01's business; skip inputs that crash
             continue
         for how in ("crlf", "cr", "mixed", "final"):
             if how == "final":
                 if t.endswith("\n"):
                     continue
-                v = t + "\n"
+                v = t
             else:
                 v = _vary(r, t, how)
             try:
-                got = md(v)
+                got = _via(md, entry, v)
             except Exception as e:  # noqa
                 got = "EXC:%s:%s" % (type(e).__name__, e)
             if got != base:
@@ -146,6 +173,8 @@ def oracle(ctx, extra):
     # None == "" and empty HTML
     ev = len(docs)
     for name, md in cfgs:
+        if "|" in name:
+            continue
         try:
             a, b = md(None), md("")
         except Exception as e:  # noqa
@@ -156,7 +185,7 @@ def oracle(ctx, extra):
             fails.append({"input": None, "config": name, "expected": b, "got": a, "how": "none"})
     return {"evaluations": ev * 4, "distinct_nontrivial": nontriv, "failures": fails,
             "rule": "LF documents (70% structured markdown incl. all plugins, 15% mutated, 15% noise; a third without final "
-                    "newline) x {CRLF, CR, unambiguous mixed, +final newline} x 6 configurations; non-trivial = has a line "
+                    "newline) x {CRLF, CR, unambiguous mixed, +final newline} x 6 configurations (+ the parse() and read() entry points); non-trivial = has a line "
                     "ending to vary or lacks the final newline; distinct by text",
             "samples": [json.dumps(d) for d in docs[:4]]}
 
@@ -170,6 +199,8 @@ def replay(ctx, case):
         if c.get("how") == "none":
             a, b = md(None), md("")
             return None if (a == b and (not name.startswith("html") or a == "")) else {"got": a, "expected": b}
-        a, b = md(c["input"]), md(c["variant"])
+        entry = name.split("|")[1] if "|" in name else "call"
+        t = c["input"]
+        a, b = _via(md, "call", t + ("" if t.endswith("\n") else "\n")), _via(md, entry, c["variant"])
         return None if a == b else {"expected": a, "got": b}
     return {"error": "unknown config"}
